@@ -26,7 +26,7 @@ CONTRACTS = {
 # LogicalRecord.represent_as_bytes, verified once per concrete record class: body bytes, type byte and EFLR flag are passed on unchanged
 for _cls, _eflr, _tp in (('NoFormatFrameData', False, 1), ('FrameData', False, 0)):
     CONTRACTS[f'LogicalRecord.represent_as_bytes[{_cls}]'] = dict(
-        target='LogicalRecord.represent_as_bytes', self_class=_cls, props=['C02'],
+        target='LogicalRecord.represent_as_bytes', self_class=_cls, props=['C02', 'C14'],
         self_fields={}, params={}, returns={'cls': 'LogicalRecordBytes', 'fields': LRB_FIELDS},
         class_state={f'{_cls}._lr_type_struct': ('bytes', f"self_cached == b'' or self_cached == enc_ushort({_tp})")},
         stubs={'_make_body_bytes': dict(returns='bytes', raises=True)},     # abstract: any bytes, or any exception (propagates)
